@@ -651,6 +651,10 @@ func c08Select(p *chk.Prog, r *chk.Report) {
 		// alternatives. From a matching selector the iteration over the selectors goes on (or ends) only with the node
 		// marked, or with a flag set to true that nothing in the loop resets and that marks the node behind the loop
 		marks := g.Find(sn.IsAssignPat("R[N.Name]", "true"))
+		withInner := 0
+		defer func() {
+			x.Check("selectedNodes:selector-loop", sn.Pos(), withInner >= 1, "", "no loop over the nodes tries the selectors")
+		}()
 		for _, outer := range sn.RangeLoops(isParamIdx(sn, 0)) {
 			var inner *ast.RangeStmt
 			for _, rs := range sn.RangeLoops(chk.Any) {
@@ -659,9 +663,18 @@ func c08Select(p *chk.Prog, r *chk.Report) {
 				}
 			}
 			if inner == nil {
+				// the loop of the no-selector case (every node is valid): entered only with an empty selector list
+				noSel := g.GPat(true, "len(LS) == 0", chk.H("LS", func(e ast.Expr) bool {
+					t := sn.Info().TypeOf(e)
+					return t != nil && t.String() == "[]k8s.io/apimachinery/pkg/labels.Selector"
+				}))
+				if g.Dominated(g.FactSite(outer.X), noSel) {
+					continue
+				}
 				x.Fail("selectedNodes:every-matching-node", outer.Pos(), "no loop over the selectors inside the loop over the nodes")
 				continue
 			}
+			withInner++
 			nodeV := rangeVal(sn, outer)
 			noMatch := g.GPat(false, "S.Matches(L)", chk.H("S", rangeVal(sn, inner)), chk.H("L", definedBy(g, "labels.Set(N.Labels)", chk.H("N", nodeV))))
 			marked := chk.GEvent(func(nd ast.Node) bool {
